@@ -24,10 +24,8 @@
 // Replies to unmutated requests are fed to the real client path (records
 // role = "resp", why = "live-reply").
 //
-// Every real call runs under recover() and a watchdog.  Inputs on which
-// nts.DecodePacket is known to loop forever while allocating (an extension field
-// with Length 0 before the authenticator; C08's finding) are not executed:
-// outcome "hang", pre = true.
+// Every real call runs under recover() and a watchdog.  Nothing is pre-filtered on
+// the tree as it is; see probeLoops for trees whose DecodePacket loops on Length 0.
 package c10
 
 import (
@@ -167,7 +165,6 @@ type world struct {
 	uid2     []byte
 	rng      *rand.Rand
 	abandons int
-	learned  int // watchdog hangs on inputs with a zero Length field
 }
 
 func (w *world) sealCookie(s session, key ntske.Key) []byte {
@@ -480,49 +477,66 @@ func (w *world) clientRecv(b []byte, key, reqID []byte, sealed [][]byte, r *resu
 	r.out, r.why = "accepted", "-"
 }
 
-// wouldLoop reproduces only the position arithmetic of nts.DecodePacket to
-// recognise inputs on which it never terminates (Length 0 before the
-// authenticator): `pos += 4; ...; pos += int(Length) - 4`.
-func wouldLoop(b []byte) bool {
-	pos := ntpLen
+// Endless loops.  The decoders of the current tree reject an extension field whose Length is below 4; older
+// (or changed) trees loop forever on Length 0, allocating 64 KiB per round for uid / cookie fields.  Whether THIS
+// build loops is probed once at start-up on two harmless inputs (zero-Length field of an unknown type: the loop
+// spins without allocating; the probing goroutine is abandoned if it does).  Only if a probe shows a loop are
+// the inputs of that shape not executed (outcome "hang", pre = true); otherwise nothing is pre-filtered and the
+// watchdog alone guards the calls.
+var loopsBefore, loopsAfter bool // zero Length before / at-or-after the authenticator makes DecodePacket spin
+
+func spins(b []byte) bool {
+	done := make(chan struct{}, 1)
+	go func() {
+		defer func() { recover(); done <- struct{}{} }()
+		var pkt nts.Packet
+		nts.DecodePacket(&pkt, b)
+	}()
+	select {
+	case <-done:
+		return false
+	case <-time.After(2 * time.Second):
+		return true
+	}
+}
+
+func (w *world) probeLoops() {
+	zero := make([]byte, 32)
+	binary.BigEndian.PutUint16(zero, 0x7f7f) // unknown type, Length 0
+	loopsBefore = spins(append(w.ntpHeader(), zero...))
+	if p := w.build("req", 1, "none"); p != nil {
+		loopsAfter = spins(append(bytes.Clone(p.b), zero...))
+	}
+}
+
+// zeroLen reports whether walking the extension fields meets a Length 0 before the authenticator (first result)
+// or at / after it (second result; only a tree that walks on behind the authenticator gets there).
+func zeroLen(b []byte) (before, after bool) {
+	pos, seenAuth := ntpLen, false
 	for len(b)-pos >= 28 {
 		typ, l := u16(b, pos), u16(b, pos+2)
 		if typ == 0x404 {
-			return false
+			seenAuth = true
 		}
 		if l == 0 {
-			return true
+			if seenAuth {
+				return false, true
+			}
+			return true, false
 		}
 		pos += l
 	}
-	return false
-}
-
-// suspect: some extension field anywhere in the datagram (also behind the authenticator) has Length 0.
-// The tree as it is stops at the authenticator; a tree that does not would loop there.
-func suspect(b []byte) bool {
-	pos := ntpLen
-	for len(b)-pos >= 28 {
-		l := u16(b, pos+2)
-		if l == 0 {
-			return true
-		}
-		pos += l
-	}
-	return false
+	return false, false
 }
 
 // receive runs the real receiving path on a private copy of the datagram.
 func (w *world) receive(p *packet, mutated []byte) result {
 	b := make([]byte, len(mutated))
 	copy(b, mutated)
-	if p.role != "cookie" && wouldLoop(b) {
-		return result{out: "hang", why: "decode-loop", pre: true, cok: true}
-	}
-	susp := p.role != "cookie" && suspect(b)
-	if susp && w.learned >= 3 {
-		// this build has shown three times that it never returns on such inputs: do not start more spinning goroutines
-		return result{out: "hang", why: "decode-loop-learned", pre: true, cok: true}
+	if p.role != "cookie" && (loopsBefore || loopsAfter) {
+		if zb, za := zeroLen(b); (zb && loopsBefore) || (za && loopsAfter) {
+			return result{out: "hang", why: "decode-loop", pre: true, cok: true}
+		}
 	}
 	done := make(chan result, 1)
 	go func() {
@@ -547,24 +561,16 @@ func (w *world) receive(p *packet, mutated []byte) result {
 			}
 		}
 	}()
-	wait := 20 * time.Second
-	if susp {
-		wait = 3 * time.Second
-	}
-	tm := time.NewTimer(wait)
+	tm := time.NewTimer(20 * time.Second)
 	defer tm.Stop()
 	select {
 	case r := <-done:
 		return r
 	case <-tm.C:
-		// the call is abandoned (its goroutine keeps spinning until the process ends)
-		if susp {
-			w.learned++
-		} else {
-			w.abandons++
-			if w.abandons > 3 {
-				w.t.Fatalf("more than 3 calls on inputs without a zero Length field did not return within 20 s; giving up")
-			}
+		// the call is abandoned (its goroutine keeps running until the process ends)
+		w.abandons++
+		if w.abandons > 3 {
+			w.t.Fatalf("more than 3 calls did not return within 20 s; giving up")
 		}
 		return result{out: "hang", why: "watchdog", timeout: true, cok: true}
 	}
@@ -944,6 +950,9 @@ func TestC10(t *testing.T) {
 		}
 		dd = dd && !bytes.Equal(w.sess[1].c2s, w.sess[2].s2c) && !bytes.Equal(w.sess[1].s2c, w.sess[2].c2s)
 		w.uid2 = rnd32(t)
+		if pk == 0 {
+			w.probeLoops()
+		}
 		d := &driver{w: w, out: out, stats: total, liveN: map[string]int{}, liveK: 2}
 		if vio.Thorough() {
 			d.liveK = 6
